@@ -291,6 +291,34 @@ func genConf(t *rapid.T) ConfCase {
 		}
 		c.IPs = append(c.IPs, rapid.SliceOfN(rapid.Byte(), l, l).Draw(t, "ip"))
 	}
+	// a third of the templates carry a SAN of one single name kind, half of those with an empty subject
+	// (a conforming encoder then marks the SAN critical; the derx encoder can also do so with a subject)
+	if mode := uni(t, "sanmode") % 12; mode < 4 {
+		one := func(label string, from []string) []string { return []string{from[uni(t, label)%len(from)]} }
+		dns, emails, uris, ips := c.DNS, c.Emails, c.URIs, c.IPs
+		c.DNS, c.Emails, c.URIs, c.IPs = nil, nil, nil, nil
+		switch mode {
+		case 0:
+			if c.DNS = dns; len(dns) == 0 {
+				c.DNS = one("dns1", dnsSamples)
+			}
+		case 1:
+			if c.Emails = emails; len(emails) == 0 {
+				c.Emails = one("email1", emailSamples)
+			}
+		case 2:
+			if c.IPs = ips; len(ips) == 0 {
+				c.IPs = [][]byte{rapid.SliceOfN(rapid.Byte(), 4, 4).Draw(t, "ip1")}
+			}
+		case 3:
+			if c.URIs = uris; len(uris) == 0 {
+				c.URIs = one("uri1", uriSamples)
+			}
+		}
+		if rapid.Bool().Draw(t, "emptysubject") {
+			c.Subject = nil
+		}
+	}
 	if on("hasnc", 3) && c.IsCA {
 		c.NCCritical = rapid.Bool().Draw(t, "nccrit")
 		c.PermDNS, c.ExclDNS = pickN(t, "pdns", ncDNS, 2), pickN(t, "xdns", ncDNS, 2)
@@ -839,18 +867,23 @@ func compareCerts(v *harness.Verdict, c ConfCase, f *x509.Certificate, s *stdx50
 			}
 		}
 	}
-	// unhandled critical extensions: only the private-arc ones of the template are compared
-	priv := func(l [][]int) []string {
+	// unhandled critical extensions: the whole list, except the extension types only one of the two
+	// parsers interprets (none of which the generators mark critical)
+	oneSided := map[string]bool{
+		"1.3.6.1.4.1.11129.2.4.2": true, "1.3.6.1.4.1.11129.2.4.3": true, "1.3.6.1.5.5.7.1.7": true, "1.3.6.1.5.5.7.1.8": true, "1.3.6.1.5.5.7.1.11": true, // fork only: SCT list, poison, RFC 3779, SIA
+		"2.5.29.33": true, "2.5.29.36": true, "2.5.29.54": true, // crypto/x509 only: policy mappings, policy constraints, inhibit anyPolicy
+	}
+	both := func(l [][]int) []string {
 		var out []string
 		for _, o := range l {
-			if strings.HasPrefix(oidStr(o), "1.3.6.1.4.1.99999.") {
+			if !oneSided[oidStr(o)] {
 				out = append(out, oidStr(o))
 			}
 		}
 		return out
 	}
-	cmpList(v, "conf:UnhandledCriticalExtensions", "UnhandledCriticalExtensions (private arc)",
-		priv(strsOID(f.UnhandledCriticalExtensions)), priv(strsOID(s.UnhandledCriticalExtensions)))
+	cmpList(v, "conf:UnhandledCriticalExtensions", "UnhandledCriticalExtensions",
+		both(strsOID(f.UnhandledCriticalExtensions)), both(strsOID(s.UnhandledCriticalExtensions)))
 	// EKUs: the fourteen constants both packages share are compared as lists; the unknown OIDs likewise,
 	// after setting aside the CT precertificate-signing usage, for which only the fork has a constant
 	// (it may report it either way; the total number of occurrences must agree).
@@ -1025,6 +1058,23 @@ func checkConf(t *testing.T, c ConfCase) harness.Verdict {
 	}
 	if len(ref.PermittedDNSDomains)+len(ref.PermittedIPRanges)+len(ref.PermittedEmailAddresses)+len(ref.PermittedURIDomains) > 0 {
 		v.Class("nc:permitted")
+	}
+	for _, e := range ref.Extensions {
+		if e.Critical {
+			v.Class("critical:" + e.Id.String())
+		}
+		if e.Critical && e.Id.String() == "2.5.29.17" {
+			kinds := ""
+			for _, k := range []struct {
+				n  int
+				nm string
+			}{{len(ref.DNSNames), "dns"}, {len(ref.EmailAddresses), "email"}, {len(ref.IPAddresses), "ip"}, {len(ref.URIs), "uri"}} {
+				if k.n > 0 {
+					kinds += "+" + k.nm
+				}
+			}
+			v.Class("critical-san:" + kinds)
+		}
 	}
 	if len(ref.UnhandledCriticalExtensions) > 0 {
 		v.Class("unhandled-critical")
